@@ -73,6 +73,9 @@ def run_case(ctx, cmd, timeout, expect_status, expect_rc, expect_out=None, expec
             out, err = rd.out, rd.err
         else:
             out, err = open(rd.out, "rb").read(), open(rd.err, "rb").read()
+        if not isinstance(out, bytes) or not isinstance(err, bytes):
+            ctx.fail("capture-type", f"{label}/{mode}: captured stdout/stderr are {type(out).__name__}/{type(err).__name__}, not bytes", case)
+            continue
         if expect_out is not None and out != expect_out:
             ctx.fail("stdout", f"{label}/{mode}: captured {len(out)} bytes of stdout, the child wrote {len(expect_out)}"
                      + ("" if len(out) != len(expect_out) else " (content differs)"), case)
@@ -172,6 +175,7 @@ def preset_environment(ctx):
 
 
 def run(ctx) -> int:
+    common.default_signal_dispositions()
     proof = common.proof_stage(ctx.pid)
     stubborn_child(ctx)
     preset_environment(ctx)
@@ -194,6 +198,11 @@ def run(ctx) -> int:
     # finishing just before / sleeping past the limit, with output produced before the timeout
     run_case(ctx, [sys.executable, w, "5000", "7", "0.05", "0"], 5, "NORMAL", 0, blob(5000, 1), blob(7, 2), label="before-limit")
     run_case(ctx, [sys.executable, w, "70000", "11", "30", "0"], 1, "TIMEOUT", None, blob(70000, 1), blob(11, 2), label="past-limit")
+    # one stream (or both) silent when the limit expires: the capture is the empty byte string, not "nothing"
+    run_case(ctx, [sys.executable, w, "300", "0", "30", "0"], 1, "TIMEOUT", None, blob(300, 1), b"", label="past-limit:stdout-only")
+    run_case(ctx, [sys.executable, w, "0", "9", "30", "0"], 1, "TIMEOUT", None, b"", blob(9, 2), label="past-limit:stderr-only")
+    # a limit of 0 seconds is a limit: a child that is still running is timed out at once
+    run_case(ctx, [sh, "-c", "sleep 3; exit 5"], 0, "TIMEOUT", None, b"", b"", label="limit-zero")
     if ctx.thorough:
         run_case(ctx, [sh, "-c", "sleep 30"], 1, "TIMEOUT", None, b"", b"", label="past-limit:silent")
         run_case(ctx, [sh, "-c", "sleep 0.3; exit 77"], 2, "CRASH", 77, b"", b"", label="before-limit:77")
